@@ -629,4 +629,15 @@ theorem everyNormalEndDid_sound {p : A → Bool} {sk : Sk} (h : everyNormalEndDi
     · omega
     · exact hex
 
+/-! ### "only under both guards" -/
+
+theorem onlyUnderBothGuards_sound {reset g1 g2 guarded : Ev → Bool} {sk : Sk} (h : onlyUnderBothGuards reset g1 g2 guarded sk = true)
+    {t : List Ev} {o : Out} (hr : Run sk t o) : (runMon (guardMon reset g1 g2 guarded) 0 t).isSome = true := by
+  unfold onlyUnderBothGuards at h
+  cases hs : scan (guardMon reset g1 g2 guarded) 4 sk [0] with
+  | none => simp [hs] at h
+  | some r =>
+    obtain ⟨s', h1, _⟩ := scan_sound _ 4 sk [0] r hs 0 (by simp) t o hr
+    simp [h1]
+
 end GeckoModel.Coop
